@@ -16,6 +16,12 @@ CHECKS = {
  "C03": ("exploration", "runtime monitoring: canonical bus-cycle log of every emulate() call compared with the reference cycle list",
          "The full cycle list (M1/read/write/delay-with-address/ack/port, in order, with addresses and data) of every step of the C01/C02 streams is compared with the reference's; >2700 distinct (encoding, taken/repeat, interrupt kind) variants per quick run, all timing variants required by a coverage floor.",
          ZNOTE, "DESIGN.md §3 C03"),
+ "C04": ("exploration", "runtime monitoring: frame-clock hook around single-stepped instructions vs the statement's contention model applied to reference bus cycles",
+         "One single-stepped instruction on the full 48K/128K machine per case, all encodings with code/operands/stack/I/port high byte in contended, uncontended, bank-dependent and window-border memory, 128K bank switched by emulated OUT, interrupt entry included; end clock must equal the model exactly (3.7e6 cases quick). Thorough: every start T-state of the frame for 80 representative cycle shapes x 4 placements x both machines (exhaustive over that sub-space).",
+         ZNOTE + " Contention model typed from the statement.", "DESIGN.md §3 C04"),
+ "C05": ("exploration", "runtime monitoring: conservation invariant checked after every single step + counting-loop accounting through the public API + INT window sweep + once-per-frame counter",
+         "A: sum of independently predicted step durations == wraps*FRAME+clock-clock0 after every step of random programs crossing a frame end; B: counting loop cost vs k*n*FRAME under emulate_frames(FrameCount(n)); C: INT accepted iff boundary T in [0,32) at every T around the frame start for IM0/1/2; D: IM2 handler of 43..407 T runs exactly once per frame under 5 main-loop kinds.",
+         ZNOTE + " Step durations = reference cycles + contention model (validated by C04).", "DESIGN.md §3 C05"),
  "C17": ("exploration", "runtime monitoring: history + executable held-controls model, ports read by single-stepped IN",
          "Random event histories over every control of every input source; after every event all input ports are read through emulated IN instructions and compared with a model written from the statement. Held on the histories observed (10^5 events quick, 10^7 thorough).",
          "Trusts the keyboard matrix / Sinclair / compound tables typed into the harness from the statement; single-stepping uses the public DebugInterface; known finding sinclair2-down-maps-to-N2 is matched only by its exact signature.",
